@@ -71,7 +71,9 @@ PROP = {
         "replication ids are 40 hex characters (equal length, no '_'): fetchCheckpoint's HasPrefix/Contains field match is modelled as equality of the parsed (run id, suffix) - the harness generates ids of that shape",
         "preconditions of the safety theorems (checked by the monitor before it judges a case): under the key the hash resolves to, one DB holds the STRICTLY largest offset X >= 0 of the two ids (C02 after the D5 repair: the position written after a SELECT is larger than the one left in the previous DB; with EQUAL offsets in two DBs gc can move the position to the other DB - example in Props/C17.lean), every numeric field of the ids parses, `_runid` fields store their own id, a new key name holds no field of the ids, an orphaned new-id record left by an interrupted re-key is a copy of the old id's record beside it; gc: both ids are reported by a source and one of them alone reads X in that DB",
         "recovery-format switch: the namespace root checkpoint lives in DB 0 (setCheckpoint / seedBisyncNamespace write it there)",
-        "D24's repair keeps <id>_runid/<id>_version of a live id in every DB a gc pass empties of its _offset/_mtime; these two small fields per (id, DB) are never collected while the id is live (when the id dies the whole entry goes): a bounded leak (<= #live ids x #DBs visited), not a correctness problem - fetchCheckpoint reads such a record as offset -1, which is never selected (generated: class norunid/nooffset records, corpus d24_*), its only visible effect is that the DB stays listed in INFO keyspace",
+        "D24's repair keeps <id>_runid/<id>_version of a live id in every DB a gc pass empties of its _offset/_mtime. These two small fields per (id, DB) are never collected, not even when the id dies: DelStaleCheckpoint only visits entries with offset > 0 (the same pre-existing filter never collects the offset -1 placeholder entry UpdateCheckpoint writes for a new id either). A permanent but bounded leak (<= #ids ever live x #DBs visited), not a correctness problem: fetchCheckpoint reads such a record as offset -1, which is never selected as a position (generated: norunid / nooffset records, corpus d24_*); visible effects: the DB stays listed in INFO keyspace, so every start / gc pass keeps visiting it. Collecting them needs the dead-id branch to drop the offset > 0 filter (gc change + model + proof), not done",
+        "standalone target double: getDbMap's cluster short-cut ({0:0}) and the cluster client's routing of GetAllCheckpointHash / HDEL are not executed (a change there is invisible to this check)",
+        "other writers of the same bookkeeping are outside the property by declaration: the fullsync API's delCheckpoints (cmd/syncer_api.go) and RedisOutput.ResetStartPoint (C06) delete positions on purpose",
         "one maintenance operation at a time on a target; gc DOES run concurrently with a replaying sender in production: covered sequentially by c17gs (gc between two batches), not as true interleaving inside one request",
         "foreign DEL / FLUSHDB of a database holding a checkpoint is outside the property (remark: writing <id>_runid/<id>_version with every checkpoint HSET in sendCmdsBatch would make the sender robust against it; not done, sender core unchanged)",
         "a format switch the code REFUSES (no authoritative seed: root checkpoint only - pinned by the repo test TestResolveBisyncCheckpointNameRejectsPlainCheckpointFallback -, or a journal gap) issues no request and leaves the target as it was; the start keeps failing until the configured mode is reverted - counted as migrate_refused, not a loss of position",
